@@ -424,3 +424,55 @@ variant("cfg-dict-dispatch", "C20", SOLVER, """    if backend_name == "sugar":
     elif backend_name == "sugar":
         return backend.sugar_like.SugarBackend
     elif backend_name == "sugar_extended":""")
+
+# ---- C14 ---------------------------------------------------------------------------------------
+FRAME = "cspuz/grid_frame.py"
+mutant("alg-getitem-bound", "C14", FRAME, "if not (0 <= y <= self.height * 2 and 0 <= x <= self.width * 2):", "if not (0 <= y < self.height * 2 and 0 <= x <= self.width * 2):", "ALG-1")
+mutant("alg-getitem-neg", "C14", FRAME, "if not (0 <= y <= self.height * 2 and 0 <= x <= self.width * 2):", "if not (y <= self.height * 2 and x <= self.width * 2):", "ALG-1")
+mutant("alg-getitem-swapped", "C14", FRAME, """        if y % 2 == 0 and x % 2 == 1:
+            return self.horizontal[y // 2, x // 2]""", """        if y % 2 == 1 and x % 2 == 0 and y // 2 <= self.height and x // 2 < self.width:
+            return self.horizontal[y // 2, x // 2]""", "ALG-1")
+mutant("alg-cell-neighbors-col", "C14", FRAME, "                self.vertical[y2, x2 + 1],", "                self.vertical[y2, x2 - 1] if x2 > 0 else self.vertical[y2, x2 + 1],", "ALG-2")
+mutant("alg-cell-neighbors-range", "C14", FRAME, "if not (0 <= y2 < self.height and 0 <= x2 < self.width):", "if not (y2 < self.height and 0 <= x2 < self.width):", "ALG-2", "negative row wraps around")
+mutant("alg-vertex-guard", "C14", FRAME, """        if y2 < self.height:
+            res.append(self.vertical[y2, x2])""", """        if y2 < self.height - 1:
+            res.append(self.vertical[y2, x2])""", "ALG-3")
+mutant("alg-vertex-wrong-array", "C14", FRAME, """        if x2 > 0:
+            res.append(self.horizontal[y2, x2 - 1])""", """        if x2 > 0:
+            res.append(self.horizontal[y2 - 1, x2 - 1] if y2 > 0 else self.horizontal[y2, x2 - 1])""", "ALG-3")
+mutant("alg-dual-keeps-arrays", "C14", FRAME, """            height=self.height + 1,
+            width=self.width + 1,
+            horizontal=self.vertical,
+            vertical=self.horizontal,""", """            height=self.height + 1,
+            width=self.width + 1,
+            horizontal=self.horizontal,
+            vertical=self.vertical,""", "ALG-4")
+mutant("alg-inner-dual-size", "C14", FRAME, """            height=self.height - 1,
+            width=self.width - 1,
+            horizontal=self.vertical,""", """            height=self.height - 1,
+            width=self.width,
+            horizontal=self.vertical,""", "ALG-4")
+mutant("alg-inner-default-shape", "C14", FRAME, "self.horizontal = solver.bool_array((height - 1, width))", "self.horizontal = solver.bool_array((height, width - 1))", "ALG-4")
+mutant("alg-iter-order", "C14", FRAME, """    def __iter__(self) -> Iterator[BoolExpr]:
+        return itertools.chain(self.horizontal, self.vertical)""", """    def __iter__(self) -> Iterator[BoolExpr]:
+        return itertools.chain(self.vertical, self.horizontal)""", "ALG-5")
+mutant("alg-from-frame-diagonal", "C14", GRAPH, "graph.add_edge(y * (width + 1) + x, (y + 1) * (width + 1) + x)", "graph.add_edge(y * (width + 1) + x, (y + 1) * (width + 1) + x + (1 if x < width else 0))", "ALG-5")
+mutant("alg-from-frame-stride", "C14", GRAPH, "graph.add_edge(y * (width + 1) + x, y * (width + 1) + (x + 1))", "graph.add_edge(y * (height + 1) + x, y * (height + 1) + (x + 1))", "ALG-5")
+mutant("alg-from-frame-swapped-blocks", "C14", GRAPH, """            if y != height:
+                edges.append(grid_frame[y * 2 + 1, x * 2])""", """            if y != height:
+                edges.append(grid_frame[y * 2 + 1, x * 2] if x * 2 + 2 > 2 * width or y > 0 else grid_frame[y * 2 + 1, x * 2 + 2])""", "ALG-5")
+variant("alg-getitem-precompute", "C14", FRAME, """        if y % 2 == 0 and x % 2 == 1:
+            return self.horizontal[y // 2, x // 2]""", """        r, c = y // 2, x // 2
+        if y % 2 == 0 and x % 2 == 1:
+            return self.horizontal[r, c]""")
+variant("alg-from-frame-reordered", "C14", GRAPH, """            if y != height:
+                edges.append(grid_frame[y * 2 + 1, x * 2])
+                graph.add_edge(y * (width + 1) + x, (y + 1) * (width + 1) + x)
+            if x != width:
+                edges.append(grid_frame[y * 2, x * 2 + 1])
+                graph.add_edge(y * (width + 1) + x, y * (width + 1) + (x + 1))""", """            if x != width:
+                edges.append(grid_frame[y * 2, x * 2 + 1])
+                graph.add_edge(y * (width + 1) + x, y * (width + 1) + (x + 1))
+            if y < height:
+                edges.append(grid_frame[y * 2 + 1, x * 2])
+                graph.add_edge((y + 1) * (width + 1) + x, y * (width + 1) + x)""")
